@@ -95,3 +95,32 @@ def configs_differ_only_by_root(first: str = "") -> bool:
 
 def always_false(why: str = "") -> bool:
     return fail(why or "z-finding")
+
+
+def glob_literal(pat: str, s: str) -> bool:
+    """re.match(glob2re(pat), s) must agree with the reference glob ('*' = run without '/', rest literal)."""
+    import re
+    from spil.sid.read.finders.find_list import glob2re
+    from oracles import glob_ref
+
+    try:
+        real = bool(re.match(glob2re(pat), s))
+    except re.error:
+        return fail("glob2re-invalid-regex")
+    # reference on the whole string: '/' is an ordinary literal for non-'*' characters
+    import fnmatch  # noqa
+    parts = pat.split("*")
+    def ref(p, s):
+        if len(p) == 1:
+            return s == p[0]
+        if not s.startswith(p[0]):
+            return False
+        rest = s[len(p[0]):]
+        # '*' = [^/]*: try every split
+        for i in range(len(rest) + 1):
+            if "/" in rest[:i]:
+                break
+            if ref(p[1:], rest[i:]):
+                return True
+        return False
+    return real == ref(parts, s) or fail("glob2re-vs-reference")
